@@ -13,7 +13,8 @@ MANIFEST = {
             "last database call is a ROLLBACK, a granted branch is reported PhaseOne_Failed 1..5 times and never Done, connection closed "
             "unless the ROLLBACK itself failed), C02_user_rollback. Tie: the REAL proxy over fakedb + tcstub with faults ENUMERATED at every "
             "position (BEGIN, image queries, statement, undo PREPARE/EXEC, COMMIT, +ROLLBACK, 4 registration refusals, report failing 1..5 "
-            "times) in autocommit and explicit use; the merged journal (image queries kept as OQuery, metadata erased) replayed through the "
+            "times; connection lost with driver.ErrBadConn / ErrInvalidConn at every call, database/sql's re-execution split into attempts; "
+            "caller's context cancelled at a statement) in autocommit, explicit and pinned-connection use (2-3 consecutive statements on one sql.Conn); the merged journal (image queries kept as OQuery, metadata erased) replayed through the "
             "model in Coq (vm_compute) + the property's clauses and a pooled-connection probe evaluated on the real run.",
     "note": "Trusted: Coq kernel + vm_compute, no axioms; fakedb/tcstub/atrun; fault model 'a failed call is not applied' (lost-reply COMMIT "
             "is outside); the script of a case is the sequence of environment outcomes observed in its own journal.",
